@@ -23,3 +23,14 @@ Definition run_egc (args : list sexp) : sexp :=
       end
   | _ => Sym "bad-case"
   end.
+
+
+(* `egall` with the verdict of the static premise of C01_model_equality_is_exactly_the_congruence appended: when it is true (and the model run
+   succeeded) the model's equality matrix over the handles IS the specified congruence (soundness + completeness), so an equality the
+   implementation reports and the model denies is an unsound equality, and one the model reports and the implementation denies is a missed one *)
+Definition run_egall_static (args : list sexp) : sexp :=
+  match run_egall args, args with
+  | Lst l, _ :: Lst (Sym "terms" :: ts) :: _ =>
+      Lst (l ++ [Lst [Sym "static"; match dec_rterms ts with Some rts => sbool (forallb term_static_userb rts) | None => Sym "false" end]])
+  | r, _ => r
+  end.
